@@ -21,6 +21,7 @@
 #include <sys/wait.h>
 #include <unistd.h>
 #include <z3++.h>
+#include <csignal>
 
 #include <algorithm>
 #include <chrono>
@@ -47,6 +48,8 @@ static uint64_t optMaxSteps = 20000000;      // per path
 static uint64_t optMaxPaths = 2000000;       // total
 static double optMaxWall = 1e9;              // seconds
 static unsigned optQueryTimeoutMs = 0;  // 0 = none (z3's per-check timer thread costs ~10 ms per query); the driver enforces wall time
+static bool optHavocSha = false;              // --havoc-sha 1: altintegration::sha256(out,in,len) over data with symbolic bytes returns 32 fresh symbolic bytes (over-approximation: any digest)
+static bool optForkPtr = false;               // --fork-ptr 1: a symbolic pointer is case-split into its feasible values instead of becoming an ITE chain over the object
 static unsigned optMaxEnum = 300;            // feasible values of a concretised index/length/pointer
 static unsigned optSamplePaths = 200;        // path records kept for native replay validation
 static unsigned optJobs = 1;
@@ -679,7 +682,7 @@ static uint64_t concretize(State& s, const Val& v, const char* what);
 struct SymAcc { bool symbolic; uint64_t ptr; uint32_t obj; z3::expr off; };
 static SymAcc resolvePtr(State& s, const Val& p, uint64_t n, bool forStore) {
   if (!p.sym()) return {false, (uint64_t)p.c, 0, Z.bv_val(0, 64)};
-  if (p.pobj && !forStore) {
+  if (p.pobj && !forStore && !optForkPtr) {
     auto it = s.mem.find(p.pobj);
     if (it != s.mem.end() && !it->second->freed && it->second->size <= 4096 && it->second->size >= n) {
       z3::expr off = (*p.e - Z.bv_val(mkptr(p.pobj, 0), 64)).simplify();
@@ -1702,6 +1705,28 @@ static void doCall(State& s, const CallInst* ci, const Function* F, std::vector<
       default: bound("unsupported intrinsic " + n.str());
     }
   }
+  if (optHavocSha && !optConcrete && n == "_ZN14altintegration6sha256EPhPKhj") {
+    uint64_t ln = concretize(s, args[2], "sha256 length");
+    uint64_t in = concPtr(s, args[1]), out = concPtr(s, args[0]);
+    bool anySym = false;
+    if (ln) robj(s, in, ln, "sha256");
+    for (uint64_t i = 0; i < ln && !anySym; i++) anySym = loadInt(s, in + i, 8).sym();
+    if (anySym) {
+      robj(s, out, 32, "sha256");
+      for (unsigned i = 0; i < 32; i++) {
+        uint32_t id = s.inputs.size();
+        std::string nm = "in" + std::to_string(id) + "_digest";
+        z3::expr v = Z.bv_const(nm.c_str(), 8);
+        inputIdOfAst[Z3_get_ast_id(Z, v)] = id;
+        varsMemo[Z3_get_ast_id(Z, v)] = std::vector<uint32_t>{id};
+        keepAlive.push_back(v);
+        s.inputs.push_back({nm, 8, v});
+        storeInt(s, out + i, symv(8, v));
+      }
+      ST.maxInputs = std::max<uint64_t>(ST.maxInputs, s.inputs.size());
+      return;
+    }
+  }
   if (!F->isDeclaration()) { enterFunction(s, ci, F, args); return; }
   // ---- natives
   if (n == "_Znwm" || n == "_Znam" || n == "malloc" || n == "_ZnwmRKSt9nothrow_t" || n == "_ZnamRKSt9nothrow_t") {
@@ -1930,7 +1955,13 @@ static void drain(bool breadth, size_t untilWork) {
     if (optStopFirst && !gViol.empty()) { work.clear(); return; }
   }
 }
+static void onUsr1(int) {   // debugging aid: kill -USR1 <pid> prints the interpreted call stack of the state being executed
+  if (!gCur) return;
+  fprintf(stderr, "---- interpreted stack (steps=%llu paths=%llu queries=%llu)\n", (unsigned long long)ST.insts, (unsigned long long)ST.paths, (unsigned long long)ST.queries);
+  for (size_t i = gCur->st.size(); i-- > 0;) fprintf(stderr, "  %s\n", gCur->st[i].F ? gCur->st[i].F->getName().str().c_str() : "?");
+}
 int main(int argc, char** argv) {
+  signal(SIGUSR1, onUsr1);
   std::string irFile, entryName;
   for (int i = 1; i < argc; i++) {
     std::string a = argv[i];
@@ -1940,6 +1971,8 @@ int main(int argc, char** argv) {
     else if (a == "--max-wall") optMaxWall = std::stod(nxt());
     else if (a == "--query-timeout-ms") optQueryTimeoutMs = std::stoul(nxt());
     else if (a == "--max-enum") optMaxEnum = std::stoul(nxt());
+    else if (a == "--fork-ptr") optForkPtr = std::stoul(nxt()) != 0;
+    else if (a == "--havoc-sha") optHavocSha = std::stoul(nxt()) != 0;
     else if (a == "--sample-paths") optSamplePaths = std::stoul(nxt());
     else if (a == "--shard") { std::string v = nxt(); size_t p = v.find('/'); optShard = std::stoul(v.substr(0, p)); optShards = std::stoul(v.substr(p + 1)); }
     else if (a == "--stop-first") optStopFirst = true;
